@@ -1127,6 +1127,13 @@ func doOp(o *Op) {
 			for i := range R.cfg.Regs {
 				r := &R.cfg.Regs[i]
 				svc, err := serviceValue(r)
+				if err != nil {
+					// the configuration asks for a constructor the generated library does not have: a defect of
+					// the scenario generator, not of the container - fail loudly instead of skipping the scenario
+					fmt.Fprintln(os.Stderr, "harness: configuration", R.cfg.Cid, "cannot be expressed:", err)
+					flushOut()
+					os.Exit(4)
+				}
 				if err == nil {
 					err = addReg(c, r, svc)
 				}
